@@ -21,7 +21,8 @@ Statuses of one run (program x seed):
 A tooling failure is never reported as `ub`.
 
 CLI (for mutation experiments in scratch copies):
-  python3 -m vlib.miri --repo /tmp/x --programs all|C02|name,name --seeds 8 [--seed 1] [--stop-first]
+  python3 -m vlib.miri --repo /tmp/x --programs all|C02|name,name --seeds 8 [--seed 1] [--stop-first] [--clean]
+  exit 0: every run ok; 1: at least one failing input (ub / assert-failed); 2: only tooling failures.
 """
 import hashlib
 import os
@@ -61,9 +62,10 @@ ALSO = {
 }
 FAILING = ("ub", "assert-failed")
 
-UB_RE = re.compile(r"error: Undefined Behavior|Data race detected|has been freed|dereferenced after|"
-                   r"dangling pointer|use.after.free", re.I)
-UB_STRICT_RE = re.compile(r"error: Undefined Behavior")
+# an actual Miri diagnosis: its UB reports start `error: Undefined Behavior: ...`; older/other wordings
+# are accepted only on an `error` line, never anywhere else in the output
+UB_RE = re.compile(r"^error: Undefined Behavior|^error.*(Data race detected|has been freed|dereferenced after|"
+                   r"dangling (pointer|reference)|use-after-free)", re.M)
 LEAK_RE = re.compile(r"error: memory leaked|the evaluated program leaked memory")
 ASSERT_RE = re.compile(r"LITMUS-ASSERT-FAILED|panicked at ")
 LITMUS_RE = re.compile(r"^LITMUS threads=(\d+) destroyed=([01])\s*$", re.M)
@@ -129,10 +131,23 @@ def litmus_dir(repo):
     return dst, os.path.join(common.BUILD, "miri-target-" + tag)
 
 
+def clean(repo):
+    """Remove the instantiated crate and Miri target dir of a (scratch) repository copy."""
+    tag = repo_tag(os.path.abspath(repo))
+    for d in ("litmus-" + tag, "miri-target-" + tag):
+        shutil.rmtree(os.path.join(common.BUILD, d), ignore_errors=True)
+    if tag != "default":
+        try:
+            os.unlink(os.path.join(common.BUILD, "litmus-inst-%s.lock" % tag))
+        except OSError:
+            pass
+
+
 def base_env():
     e = dict(os.environ)
     e.update(common.OFFLINE_ENV)
     e["MIRI_SYSROOT"] = SYSROOT
+    e["CARGO_INCREMENTAL"] = "0"      # 20 small bins: incremental caches only cost disk
     for k in ("MIRIFLAGS", "RUSTFLAGS", "CARGO_TARGET_DIR", "RUSTC_WRAPPER"):
         e.pop(k, None)
     return e
@@ -250,7 +265,7 @@ def classify(rc, out):
     m = LITMUS_RE.search(prog)
     threads = int(m.group(1)) if m else None
     destroyed = int(m.group(2)) if m else None
-    if UB_STRICT_RE.search(prog):
+    if UB_RE.search(prog):
         return "ub", trim_report(prog), threads, destroyed
     if LEAK_RE.search(prog):
         return "assert-failed", "Miri leak check: an allocation was never released\n" + trim_report(prog), threads, destroyed
@@ -297,21 +312,26 @@ def prepare(ctx, programs):
     if not progs:
         return ldir, tdir, broken
     # the first one compiles triomphe + the shared lib; the others then only their own bin
-    first = run_one(ldir, tdir, progs[0], 0, timeout_s=900, args=("--build-only",))
-    rest = []
+    res = [_build_one(ldir, tdir, progs[0])]
     if len(progs) > 1:
         with ThreadPoolExecutor(max_workers=min(MAX_WORKERS, len(progs) - 1)) as ex:
-            rest = list(ex.map(lambda p: run_one(ldir, tdir, p, 0, timeout_s=900, args=("--build-only",)), progs[1:]))
-    for r in [first] + rest:
-        if not (r["rc"] == 0 and "LITMUS build-only" in (program_output_of(r) or "")):
-            broken[r["program"]] = "litmus program does not build/start against %s (tooling failure):\n%s" % (
-                ctx.repo, r["report"] or "(no output)")
+            res += list(ex.map(lambda p: _build_one(ldir, tdir, p), progs[1:]))
+    for p, (ok, text) in zip(progs, res):
+        if not ok:
+            broken[p] = "litmus program does not build/start against %s (tooling failure):\n%s" % (ctx.repo, text)
     return ldir, tdir, broken
 
 
-def program_output_of(r):
-    return r.get("_out") or ("LITMUS build-only" if r["status"] == "tool-error" and
-                             "without its LITMUS line" in r["report"] and "LITMUS build-only" in r["report"] else None)
+def _build_one(ldir, tdir, program):
+    argv, envadd, _ = command(ldir, tdir, program, 0, args=("--build-only",))
+    env = base_env()
+    env.update(envadd)
+    with _Slot():
+        rc, out = _run(argv, cwd=ldir, env=env, timeout=900)
+    prog = program_output(out)
+    if rc == 0 and prog is not None and "LITMUS build-only" in prog:
+        return True, ""
+    return False, trim_report(prog if prog else out[-4000:])
 
 
 def run_suite(ctx, programs, seeds, timeout_s=DEFAULT_TIMEOUT, stop_first=False):
@@ -369,10 +389,16 @@ def coverage(results):
                   if r["status"] == "ok" and (r.get("threads") or 0) >= 2 and r.get("destroyed") == 1}
     progs = list(dict.fromkeys(r["program"] for r in results))
     tool = [r for r in results if r["status"] in ("tool-error", "timeout")]
+    firsts, seen = [], set()
+    for r in results:                      # one sample per program first, then failing runs
+        if r["program"] not in seen:
+            seen.add(r["program"])
+            firsts.append(r)
+    picked = [r for r in results if r["status"] in FAILING][:3] + firsts[:8]
     samples = [{"program": r["program"], "miri_seed": r["seed"],
                 "result": "no race, no use-after-free, checks passed" if r["status"] == "ok" else r["status"],
                 "threads": r.get("threads"), "destroyed": r.get("destroyed"), "wall_s": r["wall_s"]}
-               for r in results[:6]]
+               for r in picked]
     cov = {
         "evaluations": len(done),
         "distinct_nontrivial": len(nontrivial),
@@ -449,6 +475,7 @@ def main(argv=None):
     ap.add_argument("--timeout", type=int, default=DEFAULT_TIMEOUT)
     ap.add_argument("--stop-first", action="store_true", help="stop scheduling new runs after the first failing one")
     ap.add_argument("--json", action="store_true")
+    ap.add_argument("--clean", action="store_true", help="afterwards remove .build/litmus-<tag> and miri-target-<tag> of --repo")
     ap.add_argument("--show", type=int, default=1, help="print the report of the first N failing runs")
     a = ap.parse_args(argv)
     ctx = _CliCtx(a.repo, a.seed)
@@ -462,6 +489,8 @@ def main(argv=None):
     t0 = time.time()
     res = run_suite(ctx, progs, sds, timeout_s=a.timeout, stop_first=a.stop_first)
     wall = time.time() - t0
+    if a.clean:
+        clean(ctx.repo)
     if a.json:
         print(json.dumps({"results": res, "coverage": coverage(res), "wall_s": round(wall, 1)}, indent=1))
         return 0
